@@ -88,9 +88,22 @@ def run(pid, tier, seed, args, t0):
         if fr.error:
             undecided.append('%s: %s' % (fr.qual, fr.error))
     obls = []
+    other_props = 0
     for fr in frs:
+        c = SP.CONTRACTS.get(fr.qual)
+        foreign = set()
+        if c is not None:
+            mine = set(c.clauses_from.get(pid, []))
+            for q, labs in c.clauses_from.items():
+                if q != pid:
+                    foreign |= set(labs) - mine
         for o in fr.obligations:
             o.fr = fr
+            # a clause copied from ANOTHER property's statement is decided by that property's check, not here
+            lab = o.name.split('post[', 1)[1].split(']@', 1)[0] if '/post[' in o.name else None
+            if lab is not None and lab in foreign:
+                other_props += 1
+                continue
             obls.append(o)
     results = solve.discharge(obls, tier, cross=(tier == 'thorough'))
     by_name = {}
